@@ -133,14 +133,16 @@ call graph is acyclic (`Acyclic P rank`: every call goes to a function of smalle
 history — sets and removes of keyed sources and singletons, tracked-field writes, calls with every
 parameter shape, lookups, retain / clear / never-gc, collections with any capacity, in any order.
 Extra hypotheses, all explicit: the fuel exceeds every rank (no artificial fuel exhaustion), and
-`CleanStore` — at every call, the called node and every node stored at that moment evaluate from
-scratch without panicking (the stored nodes are what the verification of dependencies may
-re-execute; this excludes caught panics and reads through removed `SourceId`s).
+`CleanCalls` — every call of the history evaluates from scratch without panicking at the moment it
+is made (this excludes caught panics; it does NOT ask anything of the other stored nodes: a stored
+node that would panic now — a read through a removed `SourceId` — is never re-executed, because the
+dependencies are verified in recorded order and a callee is only reached when everything read
+before it is unchanged, i.e. when the current evaluation still calls it).
 This is the early-cutoff argument for pico's stamps: verification of derived dependencies in
 recorded order, `time_verified` set before the dependencies are examined, `time_updated` reported
 even when backdating, absent sources as dependencies, collection of unreachable nodes. -/
 theorem C01_incremental_partial (fuel cap : Nat) (P : Prog) (rank : Nat → Nat) (h : List Op)
-    (hacy : Acyclic P rank) (hrank : ∀ g, rank g < fuel) (hclean : CleanStore fuel cap P h) :
+    (hacy : Acyclic P rank) (hrank : ∀ g, rank g < fuel) (hclean : CleanCalls fuel cap P h) :
     C01_statement_at fuel cap P h := by
   intro pre f a rest hh
   rcases c01_inc hacy fuel cap hrank h hclean pre f a rest hh with hd | hv
@@ -157,8 +159,25 @@ def histInc : List Op :=
   [.set 0 4, .set 1 9, .call 0 0, .set 0 5, .call 0 0, .sset 1 2, .call 0 0, .call 2 1, .gc, .set 0 5, .call 0 0,
    .rem 1, .set 1 6, .retain 0 0, .call 0 1, .gc, .srem 1, .call 0 0, .set 0 8, .call 1 0, .call 0 0, .look 0 1]
 
-example : Acyclic progInc (fun i => 4 - i) ∧ (∀ g, (fun i => 4 - i) g < 6) ∧ CleanStore 6 1 progInc histInc :=
-  ⟨acyclic_of_bounded _ _ (by decide), fun g => by simp; omega, cleanStore_of_B 6 1 progInc histInc (by decide +kernel)⟩
+example : Acyclic progInc (fun i => 4 - i) ∧ (∀ g, (fun i => 4 - i) g < 6) ∧ CleanCalls 6 1 progInc histInc :=
+  ⟨acyclic_of_bounded _ _ (by decide), fun g => by simp; omega, cleanCalls_of_B 6 1 progInc histInc (by decide +kernel)⟩
+
+/- Non-vacuity, the guarded read: `f0` calls `f1` only while singleton 0 is set; `f1` reads keyed
+source 0.  After both are removed the STORED node `f1(0)` would panic if it were re-executed
+(so the history is outside `CleanStore`), yet every call is clean and the theorem applies: the
+verification of `f0` stops at the changed singleton and never reaches `f1(0)`. -/
+def progGuard : Prog := [⟨0, .ite (.sing 0) (.call 1 .param) (.lit 7)⟩, ⟨0, .src .param⟩]
+def histGuard : List Op :=
+  [.set 0 5, .sset 0 1, .call 0 0, .srem 0, .rem 0, .call 0 0, .gc, .set 0 6, .call 0 0, .sset 0 3, .call 0 0]
+
+example : Acyclic progGuard (fun i => 2 - i) ∧ (∀ g, (fun i => 2 - i) g < 4) ∧ CleanCalls 4 8 progGuard histGuard :=
+  ⟨acyclic_of_bounded _ _ (by decide), fun g => by simp; omega, cleanCalls_of_B 4 8 progGuard histGuard (by decide +kernel)⟩
+
+example : (alookup (after 4 8 progGuard (histGuard.take 5)).derived ⟨1, 0⟩).isSome = true ∧
+    evalS 4 progGuard (after 4 8 progGuard (histGuard.take 5)).srcs (after 4 8 progGuard (histGuard.take 5)).maps [] ⟨1, 0⟩
+      = .panic .absentSource ∧
+    (run 4 progGuard (initS 8 progGuard) histGuard).2 =
+      [.ok, .ok, .val 5, .ok, .ok, .val 7, .ok, .ok, .val 7, .ok, .val 6] := by decide +kernel
 
 /-! ### repaired defects (F1, F2; /repo 79c6822) — the former witness histories now satisfy the statement -/
 
